@@ -29,9 +29,15 @@ static int parsec_base_future_is_ready(parsec_base_future_t* future)
 
 static void parsec_base_future_set(parsec_base_future_t* future, void* data)
 {
+#if defined(PARSEC_VERIF)
+    PARSEC_VERIF_YIELD(PARSEC_VERIF_SITE_FUTURE);
+#endif
     if(parsec_atomic_cas_ptr(&(future->tracked_data), NULL, data)) {
         parsec_atomic_wmb();
         /* increment flag to indicate data is ready */
+#if defined(PARSEC_VERIF)
+        PARSEC_VERIF_YIELD(PARSEC_VERIF_SITE_FUTURE);
+#endif
         future->status |= PARSEC_DATA_FUTURE_STATUS_COMPLETED;
         if(future->cb_fulfill != NULL){
             future->cb_fulfill(future);
@@ -74,7 +80,13 @@ static void parsec_countable_future_set(parsec_base_future_t* future, void* data
 {
     (void) data; /* not used since can't guarantee order between the sets */
     parsec_countable_future_t* c_fut = (parsec_countable_future_t*)future; 
+#if defined(PARSEC_VERIF)
+    PARSEC_VERIF_YIELD(PARSEC_VERIF_SITE_FUTURE);
+#endif
     if(0 == parsec_atomic_fetch_dec_int32(&(c_fut->count))-1){
+#if defined(PARSEC_VERIF)
+        PARSEC_VERIF_YIELD(PARSEC_VERIF_SITE_FUTURE);
+#endif
         c_fut->super.status |= PARSEC_DATA_FUTURE_STATUS_COMPLETED;
         if( NULL != future->cb_fulfill ){
             future->cb_fulfill(future);
